@@ -15,14 +15,15 @@ TECHNIQUE = ('bounded exhaustive enumeration of inputs (all per-bin value/error 
              'degrees of freedom x shapes x numbers of datasets) of the real TestStudent against a scalar reference model, plus '
              'every instance of each metamorphic relation inside the enumerated set')
 RULE = ('per (alpha, ndf): every bin (v1, e1, v2, e2) over the value and error alphabets, evaluated once as a cell of one array '
-        'dataset and once as a scalar dataset; every assignment of the bin classes {pass (t = 0), fail (|t| = 7e6), undefined[, near (t = -0.35, verdict from the reference)]} to the cells of the '
+        'dataset, once as a scalar dataset and once as a cell of a square 2-d array stored Fortran-ordered / as a transposed view / strided '
+        '(same t, p and decision as in the C-ordered array); every assignment of the bin classes {pass (t = 0), fail (|t| = 7e6), undefined[, near (t = -0.35, verdict from the reference)]} to the cells of the '
         'shapes (), (1,), (3,), (2,2), (1,2,1) for 1-3 compared datasets; relations: swap of the datasets, common rescaling by 2 and '
         '1e-3, monotonicity in |v1-v2| and in the errors over all pairs of enumerated bins; non-trivial = bins with a zero, NaN or '
         'infinite ingredient, and multi-cell / multi-dataset assignments that mix classes')
 ASSUMPTIONS = ['reference tail probabilities from scipy.special.ndtr / stdtr (the code uses scipy.stats ppf/sf)',
                'verdicts within 1e-9 (relative) of the decision boundary are not compared (counted as boundary_skipped)',
                'small-scope: <= 4 cells per array, <= 3 compared datasets']
-LEVEL_TEXT = ('Every combination of 9-12 values x 5-6 errors on both sides (2025-5184 bins) x 3-5 levels x 4-5 degrees of freedom is '
+LEVEL_TEXT = ('Every combination of 9-12 values x 6-7 errors on both sides (2916-7056 bins) x 3-5 levels x 4-5 degrees of freedom is '
               'evaluated through the array path and the scalar path of the real TestStudent and compared bin by bin (t, p-value, oracle, '
               'p-value decision) with a scalar reference; verdict aggregation is checked on every class assignment to <= 4 cells and <= 3 '
               'datasets; symmetry, rescaling and monotonicity are checked on every pair of enumerated bins. Exhaustive over this alphabet, '
